@@ -178,16 +178,78 @@ func (p *Prog) indexFile(pkg *packages.Package, file *ast.File) {
 func (p *Prog) indexLits(pkg *packages.Package, parent *Func, root ast.Node) {
 	var walk func(n ast.Node, parent *Func)
 	walk = func(n ast.Node, parent *Func) {
+		// roles of the literals directly under n: the variable a literal is bound to, the function it is passed to, go /
+		// defer / immediate call - so that keys survive the insertion or removal of an unrelated literal
+		roles := map[*ast.FuncLit]string{}
+		ast.Inspect(n, func(m ast.Node) bool {
+			switch x := m.(type) {
+			case *ast.AssignStmt:
+				for i, r := range x.Rhs {
+					if l, ok := unparen(r).(*ast.FuncLit); ok && i < len(x.Lhs) {
+						if id, ok := x.Lhs[i].(*ast.Ident); ok {
+							roles[l] = id.Name
+						}
+					}
+				}
+			case *ast.ValueSpec:
+				for i, r := range x.Values {
+					if l, ok := unparen(r).(*ast.FuncLit); ok && i < len(x.Names) {
+						roles[l] = x.Names[i].Name
+					}
+				}
+			case *ast.KeyValueExpr:
+				if l, ok := unparen(x.Value).(*ast.FuncLit); ok {
+					if id, ok := x.Key.(*ast.Ident); ok {
+						roles[l] = id.Name
+					}
+				}
+			case *ast.GoStmt:
+				if l, ok := unparen(x.Call.Fun).(*ast.FuncLit); ok {
+					roles[l] = "go"
+				}
+			case *ast.DeferStmt:
+				if l, ok := unparen(x.Call.Fun).(*ast.FuncLit); ok {
+					roles[l] = "defer"
+				}
+			case *ast.CallExpr:
+				if l, ok := unparen(x.Fun).(*ast.FuncLit); ok {
+					if roles[l] == "" {
+						roles[l] = "call"
+					}
+				}
+				name := ""
+				switch f := unparen(x.Fun).(type) {
+				case *ast.Ident:
+					name = f.Name
+				case *ast.SelectorExpr:
+					name = f.Sel.Name
+				}
+				for _, a := range x.Args {
+					if l, ok := unparen(a).(*ast.FuncLit); ok && name != "" {
+						roles[l] = name
+					}
+				}
+			}
+			return true
+		})
+		count := map[string]int{}
 		ast.Inspect(n, func(m ast.Node) bool {
 			lit, ok := m.(*ast.FuncLit)
 			if !ok {
 				return true
 			}
 			var key string
-			var idx int
 			if parent != nil {
-				idx = len(parent.Lits) + 1
-				key = fmt.Sprintf("%s$%d", parent.Key, idx)
+				role := roles[lit]
+				if role == "" {
+					role = "lit"
+				}
+				count[role]++
+				if count[role] == 1 {
+					key = fmt.Sprintf("%s$%s", parent.Key, role)
+				} else {
+					key = fmt.Sprintf("%s$%s#%d", parent.Key, role, count[role])
+				}
 			} else {
 				key = fmt.Sprintf("%s.init$lit@%d", ShortPkg(pkg.PkgPath), p.Fset.Position(lit.Pos()).Line)
 			}
